@@ -55,6 +55,7 @@ def features(case, run, val):
 def case_gen(rng, k):
     if k % 11 == 6: return gen.gen_weak_and_direct_case(rng)
     if k % 13 == 8: return gen.gen_plain_init_case(rng)
+    if k % 17 == 12: return gen.gen_mixed_attr_case(rng)
     case = gen.gen_parallel_case(rng, clean=(k % 10 != 9)) if k % 5 == 4 else gen.gen_fanin_case(rng) if k % 5 == 2 else gen.gen_case(rng, groups=True, clean=0.75)
     if k % 4 == 3:
         case['mirror'] = rng.choice([1, 1, 2])       # several entities per simulator, connected index by index
